@@ -31,6 +31,12 @@ NOTES = {
  "C13b-grown-worker-not-indexed": ("C13", "the pool is grown after start-up and a worker of a new slot dies with jobs queued for it", ""),
  "C16b-v2-swap-remove-skips-subscriber": ("C16", "output-port-v2, a stopped subscriber that is not last in the list, and a publication after the stop", ""),
  "C19b-external-session-ignores-frame-limit": ("C19", "a node configured with a small inbound frame limit, a session over a user-supplied transport, and a declared length between the limit and 16 MiB", "missed at first (the configured limit was only exercised on the frame reader in isolation); live NodeServer sessions with a 64-byte limit were added"),
+ "C01b-kill-ignored-when-draining-or-stopping": ("C01", "kill() on an actor that is already Draining or Stopping (a drain or stop raced with it) is silently dropped, so handlers and post_stop begin after kill() returned", "caught by the stopper/drainer/killer-racing scenarios, which I had added to C01 on my own an hour before this change arrived; C03 (whose statement has the same clause) missed it until it got the same scenarios"),
+ "C03b-supervision-burst-before-stop": ("C03", "stop() returns while a supervision handler runs and a second supervision event is already pending: the loop now drains the supervision port before it looks at the stop port", "missed at first (only one supervision event was ever in flight); the pg stimulus now produces two events back to back"),
+ "C05b-link-status-check-outside-lock": ("C05", "link() passes its status check, the child then exits completely, and link() then records the link under a supervisor that stays alive", "missed at first: in every core unit the supervisor exited too and its exit wiped the stale entries; two cores with a supervisor that stays alive were added"),
+ "C07b-admission-release-fast-path": ("C07", "a complete drain() falls between the last in-flight sender's status load and its decrement in MessageAdmission::drop: nobody queues the marker and the actor stays Draining", ""),
+ "C08b-join-recheck-removed": ("C08", "another task is inside pg::join for the starting actor, between the status pre-filter and the insertion, while the start fails and its clean-up runs", "caught by C11 from the start; missed by C08 (side effects were performed by pre_start itself at task granularity); an outsider task that joins / monitors / links the starting actor, explored with a decision point before every map, lock and atomic step, was added"),
+ "C10b-register-takes-over-stopping-owner": ("C10", "a same-name spawn lands between the owner's status store (Stopping) and its unregister: the newcomer overwrites the entry, the owner's clean-up deletes it", ""),
 }
 for d in sorted(glob.glob("/verif/seeded/*")):
     sid = os.path.basename(d)
